@@ -8,6 +8,7 @@ package main
 
 import (
 	"fmt"
+	"github.com/Fantom-foundation/lachesis-base/vecfc"
 	"math/bits"
 
 	"github.com/Fantom-foundation/lachesis-base/hash"
@@ -171,7 +172,14 @@ func main() {
 		add(cons.WV(1, 1, 1), 5, 2)
 		add(cons.WV(1, 1, 1, 1), 5, 1)
 	}
-	cfgs := []cons.Config{cons.DefaultConfig()}
+	// instances alternate between the default cache sizes and tiny caches (a root list that does not fit the roots
+	// cache, vector caches of size zero): the running instance then depends on its caches, the restarted one on the DB
+	tiny := cons.DefaultConfig()
+	tiny.Store.Cache.RootsNum, tiny.Store.Cache.RootsFrames = 2, 1
+	tiny.Index = vecfc.IndexConfig{}
+	cfgList := []cons.Config{cons.DefaultConfig(), tiny}
+	k := 0
+	nextCfg := func() cons.Config { k++; return cfgList[k%len(cfgList)] }
 	item := 0
 	for _, g := range fams {
 		cons.GenAll(g, 2, func(d *lref.DAG) {
@@ -179,7 +187,7 @@ func main() {
 			if !c.Mine(item) || c.OutOfBudget() {
 				return
 			}
-			checkDAG(c, d, fmt.Sprintf("F-all/F-fork weights=%v N=%d forks<=%d", g.Weights, g.N, g.ForkBudget), cfgs[0])
+			checkDAG(c, d, fmt.Sprintf("F-all/F-fork weights=%v N=%d forks<=%d", g.Weights, g.N, g.ForkBudget), nextCfg())
 			if item%2001 == 1 {
 				c.Sample(map[string]interface{}{"dag": d.String(), "restart_points": "before and after the last event of every parents-first order prefix; twice before every event"})
 			}
@@ -196,7 +204,7 @@ func main() {
 	for _, r := range rounds {
 		r := r
 		cons.GenRounds(r, func(i int) bool { return c.Mine(i) && !c.OutOfBudget() }, func(d *lref.DAG, desc string) {
-			checkDAG(c, d, "F-round "+desc, cfgs[0])
+			checkDAG(c, d, "F-round "+desc, nextCfg())
 		})
 	}
 	// a sleeping validator returning with stale knowledge while the first election is split (frame-jumping
@@ -209,13 +217,13 @@ func main() {
 	for _, sl := range sleepers {
 		cons.GenSleeper(sl, func(i int) bool { return c.Mine(i) && !c.OutOfBudget() }, func(d *lref.DAG, desc string) {
 			c.Count("sleeper_family_dags", 1)
-			checkDAG(c, d, "F-sleeper "+desc, cfgs[0])
+			checkDAG(c, d, "F-sleeper "+desc, nextCfg())
 		})
 	}
 	cd, cn := cons.CorpusDAGs()
 	for i, d := range cd {
 		if c.Mine(1000003 + i) {
-			checkDAG(c, d, cn[i], cfgs[0])
+			checkDAG(c, d, cn[i], nextCfg())
 		}
 	}
 	cons.ExploreEpochs(c, cons.Report{"restart": true, "epoch": true}, quick)
